@@ -23,8 +23,7 @@ Fixpoint sort_by_key (l : list (Z * text)) : list (Z * text) :=
 Definition join_parts (parts : dict text) : text := concat (map snd (sort_by_key parts)).
 
 (* put_delivery_segmented: returns the store and the complete text when this segment completes the
-   message. KeyError when a message whose total is 1 arrives as its own first segment (the del of a
-   key that was never stored). *)
+   message (pop(ref, None): a message whose total is 1 completes at once and was never stored). *)
 Definition put_delivery_segmented (st : dstore) (now : Q) (ref seq total : Z) (t : text) : res (dstore * option text) :=
   let parts := match dget ref st with
                | Some d => dset (ds_parts d) seq t
@@ -33,7 +32,7 @@ Definition put_delivery_segmented (st : dstore) (now : Q) (ref seq total : Z) (t
   if Z.of_nat (length parts) =? total then
     match dget ref st with
     | Some _ => Ok (ddel ref st, Some (join_parts parts))
-    | None => Err EXN_KeyError
+    | None => Ok (st, Some (join_parts parts))
     end
   else Ok (dset st ref {| ds_at := now; ds_parts := parts |}, None).
 
